@@ -332,7 +332,11 @@ impl<
         let (starts, ends) = (self.civil_starts(), self.civil_ends());
         assert!(!starts.is_empty(), "transitions is non-empty");
         let this_index = match starts.binary_search(&dtt) {
-            Err(0) => unreachable!("impossible to come before DateTime::MIN"),
+            // The first transition is a dummy at `Timestamp::MIN`, whose
+            // civil time (after applying its offset) can be greater than
+            // `DateTime::MIN`. Anything before it is governed by that first
+            // transition, just like for timestamps.
+            Err(0) => 0,
             Ok(i) => i,
             Err(i) => i.checked_sub(1).expect("i is non-zero"),
         };
